@@ -69,7 +69,7 @@ var propertyCanaries = map[string][]string{
 	"C16": {"NILGUARD.sibling", "ERR.overwrite", "ERR.swallow", "RESET.revive", "DECODE.order", "DECODE.errdrop", "DECODE.mul", "DECODE.selfcmp", "DECODE.clone", "DECODE.fields"},
 	"C17": {"GLOBAL.state", "CMPLX.parts", "RESET.noleak", "GLOBAL.write", "RESET.fields", "WINDOW.pointwise"},
 	"C18": {"CALLBACK.owncopy", "ERR.overwrite", "ERR.swallow", "SETTINGS.readonly", "RAW.stride", "SWAP.cond", "GOPROTO.accumzero", "CONST.stencil", "GOPROTO.sibling"},
-	"C19": {"STATUS.dropped", "INIT.complete", "GOPROTO.latch", "ERR.overwrite", "ERR.swallow", "SETTINGS.readonly", "OPT.maskpair", "ALIAS.config", "OPT.limits", "GOPROTO.scratch", "GOPROTO.run", "INIT.state"},
+	"C19": {"SENTINEL.index", "STATUS.dropped", "INIT.complete", "GOPROTO.latch", "ERR.overwrite", "ERR.swallow", "SETTINGS.readonly", "OPT.maskpair", "ALIAS.config", "OPT.limits", "GOPROTO.scratch", "GOPROTO.run", "INIT.state"},
 }
 
 func init() {
@@ -125,6 +125,7 @@ func init() {
 		{"FACT.condpath", "mat/lu.go", "\t\tlu.lu.Copy(orig.lu)\n\t\tlu.ok = orig.ok\n\t}\n", "\t\tlu.lu.Copy(orig.lu)\n\t\tlu.ok = orig.ok\n\t}\n\tif alpha == 0 {\n\t\treturn\n\t}\n", func() *core.Result { return factx.Run(def) }},
 		{"LOOPIDX.continue", "blas/gonum/level2float64.go", "\t\t\t\tatmp := ap[offset:]\n\t\t\t\txi := x[i]\n\t\t\t\tyi := y[i]\n\t\t\t\txtmp := x[i:n]", "\t\t\t\tatmp := ap[offset:]\n\t\t\t\txi := x[i]\n\t\t\t\tyi := y[i]\n\t\t\t\tif xi == 0 && yi == 0 {\n\t\t\t\t\tcontinue\n\t\t\t\t}\n\t\t\t\txtmp := x[i:n]", func() *core.Result { return loopidx.RunContinueSkip(def, core.Pkgs("./blas/gonum")) }},
 		{"MAT.access", "mat/matrix.go", "\tif i < 0 || i >= r {\n\t\tpanic(ErrRowAccess)", "\tif i < 0 || i >= r {\n\t\tpanic(ErrColAccess)", func() *core.Result { return matargs.RunAccess(def) }},
+		{"SENTINEL.index", "optimize/listsearch.go", "\tif l.bestIdx < 0 || task.F < l.bestF {", "\tif task.F < l.bestF {", func() *core.Result { return flagx.RunSentinelIndex(def, core.Pkgs("./optimize")) }},
 		{"ARGS.workquery", "lapack/gonum/dgeqrf.go", "case len(work) < max(1, lwork):", "case len(work) < lwork:", func() *core.Result { return flagx.RunWorkQuery(def, core.Pkgs("./lapack/gonum")) }},
 		{"ARGS.callee", "lapack/gonum/dsytrd.go", "case len(d) < n:", "case len(d) < n-1:", func() *core.Result { return worksize.RunCallee(def, core.Pkgs("./lapack/gonum")) }},
 		{"GRAPHINV.together", "graph/simple/weighted_undirected.go", "\tif fm, ok := g.edges[fid]; ok {\n\t\tfm[tid] = e\n\t} else {", "\tif fm, ok := g.edges[fid]; ok {\n\t\t_, exists := fm[tid]\n\t\tfm[tid] = e\n\t\tif exists {\n\t\t\treturn\n\t\t}\n\t} else {", func() *core.Result { return graphinv.Run(def) }},
